@@ -9,6 +9,7 @@ import (
 	"strconv"
 
 	"github.com/glebziz/fs_db/internal/model"
+	coremodel "github.com/glebziz/fs_db/internal/model/core"
 	"github.com/glebziz/fs_db/internal/model/sequence"
 	"github.com/glebziz/fs_db/internal/usecase/core"
 	"github.com/glebziz/fs_db/internal/utils/ptr"
@@ -69,4 +70,48 @@ func (v *VList) Latest() (uint64, bool) {
 		TxId: ptr.Ptr(model.MainTxId),
 	})
 	return uint64(f.Seq), err == nil
+}
+
+// VListNS drives one key's list in a store without the search array (the configuration of the
+// all-store): append, pop-front, pop-back, latest.
+type VListNS struct {
+	tx  coremodel.Transaction
+	key string
+}
+
+func NewVListNoSearch() *VListNS {
+	return &VListNS{tx: coremodel.Transaction{WithoutSearch: true}, key: "k"}
+}
+
+func (v *VListNS) Push(seq uint64) {
+	v.tx.PushBack(new(coremodel.Node[model.File]).SetV(model.File{
+		Key:       v.key,
+		TxId:      model.MainTxId,
+		ContentId: strconv.FormatUint(seq, 10),
+		Seq:       sequence.Seq(seq),
+	}))
+}
+
+func (v *VListNS) PopFront() (uint64, bool) {
+	n := v.tx.File(v.key).PopFront()
+	if n == nil {
+		return 0, false
+	}
+
+	return uint64(n.V().Seq), true
+}
+
+func (v *VListNS) PopBack() (uint64, bool) {
+	n := v.tx.File(v.key).PopBack()
+	if n == nil {
+		return 0, false
+	}
+
+	return uint64(n.V().Seq), true
+}
+
+func (v *VListNS) Latest() (uint64, bool) {
+	f := v.tx.File(v.key).Latest()
+
+	return uint64(f.Seq), !f.Seq.Zero()
 }
